@@ -106,7 +106,7 @@ func (p c06) Run(runseed uint64, tier string, acc *Acc) []*core.Violation {
 		w = core.GenHistory(r, c06Opts(tier))
 	}
 	acc.Runs++
-	c := &core.Case{Prop: "C06", Seed: runseed, W: w, SinkKind: []string{"w", "wx"}[r.Intn(2)], SourceKind: []string{"rs", "rsb", "rsx", "rsf"}[r.Intn(4)]}
+	c := &core.Case{Prop: "C06", Seed: runseed, W: w, SinkKind: []string{"w", "wx", "w", "wx", "ws"}[r.Intn(5)], SourceKind: []string{"rs", "rsb", "rsx", "rsf"}[r.Intn(4)]}
 	v, steps, digest := p.check(c)
 	acc.Evals++
 	acc.Steps += steps
